@@ -43,6 +43,18 @@ CHECKS = {
  "C17": ("TLA+ repetition bag model: TLC on MC_Engine (RegInvariant) + trace validation of shuffling histories and Game-API games",
          "reported occurrence counts compared with the model's bag of full positions (placement, side, rights, ep) along recorded histories with recurrences, triangulation, rights loss, ep opportunities and interleaved undo; Game-API shuffle games must be drawn at the third occurrence.",
          "5 C17", "Game-level part is a known finding (D8b) on this tree"),
+ "C02": ("TLA+ cache model: TLC on MC_GenCache (reachable engine states share no (key, colour) with different answers; negative control) + Trace_Gen validation of long-lived vs brand-new generator answers",
+         "a long-lived generator is compared with one that cannot hold a cached entry at every node of perft-shaped walks (start position to ply 4), games with backtracking and searches; the alarm is the property's own sentence; TLC replays the cache as a map and names the positions that shared a key.",
+         "5 C02", "hook H1 provides the capacity-1 reference generator; attack maps compared on a sample"),
+ "C10": ("TLA+ state graph of the rules (Oracle_Graph) -> path counts; replayed against every counting entry point",
+         "the number count_positions must return is computed from the TLC state graph of layer R (self-tested against the published perft table) and compared with the parallel routine, its sequential inner routine (hook H4), new and used generators, several rayon pool sizes and the command-line driver.",
+         "5 C10", "distinct legal moves lead to distinct successors, so graph paths = move sequences"),
+ "C11": ("TLA+ ray-walk geometry: complete TLC enumeration of all 107 648 slider cases + leapers replayed against the magic tables; TLC validation of random occupancies",
+         "exhaustive over (slider, square, relevant-blocker subset) for the table draw examined; every case replayed for both colours; random full boards incl. queens validated by TLC.",
+         "5 C11", "magic constants of the current build in quick; 3 further draws in thorough"),
+ "C18": ("TLA+ Mirror relation and score bounds: TLC validation of recorded (position, score, mirror, score) and mate-score-by-depth records",
+         "colour symmetry of the static score on a covering family (every piece kind x square x colour x game phase), material extremes and game positions; |score| below every mate score; mate scores strictly improving with remaining depth 0..255; stalemate = 0; overflow checks on.",
+         "5 C18", "the numeric piece-square tables are not transcribed; symmetry is a metamorphic relation supplied by the spec"),
 }
 
 
